@@ -13,8 +13,12 @@ CHECKS = {
          "reference model = documented layout with an independent NEVRA / module-UID parser", TECH + " (history + restart vs reference model)", "6/C03"),
  "C04": ("exploration", "Persistence invariant of the simulated treeinfo / discinfo nodes: API histories (permuted variant/path/image/checksum insertion, dashed top-level UIDs, child variants of every type, layered releases, src trees), dump with and without main_variant, restart by path / handle / loads, comparison with a reference model, byte-identical re-dump; every .treeinfo that reaches SimFS is additionally parsed by an independent minimal INI reader.",
          "text restricted to what the INI syntax can carry, as the property's quantifier states; integer timestamps only for the byte-identical oracle", TECH + " (seeded history + restart vs reference model, independent INI reader)", "6/C04"),
+ "C05": ("exploration", "The durable state was written by an older incarnation of the software: independent down-converters (composeinfo 1.1/1.0/0.3/<0.3, images 1.1/1.0, rpms 1.1/1.0/0.3, treeinfo 1.1/1.0/0.3/0.0) rewrite a document the history really wrote, and every fixture shipped in tests/ (67 .treeinfo, 77 .discinfo, 4 images, 2 composeinfo) is copied to SimFS; the node restarts on it: same facts under the documented mapping (generated content), written back with the current version and proper header type, reload identical, second write byte-identical; the history then continues across further restart cycles.",
+         "rpms 0.3 and composeinfo < 0.3 have no format document in the repository (down-converter follows the property text and the reader's input shape); 0.0 treeinfo and the corpus get the idempotence oracle only", TECH + " (older durable state + restart cycles)", "6/C05"),
  "C06": ("fault_enumeration", "A hand-written table of the complement of every documented field domain is enumerated over the field locators of history-built objects of all seven formats (any variant in the forest, any image in any cell, any section; quick: a PRNG sample of <= 24 per object, thorough: all): poison -> dumps() and dump(path) must raise TypeError/ValueError and yield no text -> heal -> dump succeeds and a restart gives the model back. Converse: every dump of an un-poisoned object in every run must succeed (an independent validity predicate over the reference model decides which is which).",
          "only documented constraints are in the table; where the library is merely lax or strict about something undocumented the predicate answers UNSPECIFIED and nothing is demanded", TECH + " (enumeration of poisoned field locators inside sampled histories)", "6/C06"),
+ "C07": ("fault_enumeration", "The stored copy is damaged between the write and the next restart: for a document the history really wrote, every structured corruption (one field anywhere out of its documented domain - excluding values the reader documents as coerced -, header type of another format, mangled version, required key/section deleted; thorough: all, quick: 48 evenly spread) must make load/loads raise, the < 1.1 side of the type gate must not be rejected for the type alone, and unstructured damage (byte flips, truncation, duplicated block, garbage, non-UTF-8, deleted/swapped lines) must raise or return an object that passes the independent constraint table and can be dumped.",
+         "any exception type counts as rejection (the property says 'an exception'); for rpms/modules/extra-files only header and compose section are damaged", TECH + " (stored-document damage enumeration + restart)", "6/C07"),
  "C08": ("exploration", "One abstract content is built 2-4 times by different histories (permuted insertion order of every unordered part, redundant calls, once via restart), under SimSet iteration orders insertion/reverse/sorted/shuffled, each build dumped repeatedly: all byte strings equal; every text checked by independent code for canonical JSON (sorted keys, indent 4) or sorted INI sections/options; a sample of cases is re-executed in fresh interpreters under several real PYTHONHASHSEED values with the real set and the hashes of all dumps compared.",
          "SimSet controls only sets created by the name `set` in the productmd modules or handed in by the harness; C-level set results are covered by the real-hash-seed sweep only", TECH + " (iteration-order adversary + permuted histories + real hash-seed sweep)", "6/C08"),
  "C09": ("exploration", "Histories of Images.add over a small identity pool (each identity attribute varied individually, equal and different checksums, same and different cells) under header versions below/at/above 1.1, with dump/restart and colliding pairs injected into stored documents of version 1.0/1.1/1.2; invariants: refusal leaves the manifest unchanged, exactly the addressed cell gains the image, no collision in any >=1.1 live or stored manifest, collision documents rejected on load iff >=1.1, identify_image(object)==identify_image(dict).",
@@ -29,6 +33,8 @@ CHECKS = {
          "no short reads are injected (a BufferedReader over a regular file never produces them); shake_* algorithms (need a length) are outside", TECH + " (I/O seam with read faults, stored-document damage + restart)", "6/C16"),
  "C17": ("exploration", "Invariant on every .treeinfo that reaches SimFS in histories where variants are added and removed between dumps, main_variant changes from dump to dump, float and integer timestamps alternate and platforms do or do not list the tree arch: [general] parsed by an independent INI reader must mirror release/tree/main-variant facts incl. src fallbacks; plus: the compatibility sections alone are loaded as a pre-productmd file and must show the same arch/family/version/timestamp/variant.",
          "weakest simulation content of all claimed properties: a function of the tree and one argument, checked on files the histories write anyway", TECH + " (file invariant over seeded histories)", "6/C17"),
+ "C20": ("exploration", "A SimFS world is drawn per run (direct metadata/, compose/metadata/, one legacy sub-directory, each of the four files under current / legacy name / both / absent, decoys, valid or damaged content distinct per location, trailing slash, adversarial listdir order); Compose(path) is opened repeatedly under re-drawn listdir permutations, accessors are used in PRNG order and repeatedly while files are removed/replaced and read faults (EIO, EACCES, vanish-after-exists) are armed and healed; oracle: layout resolution, accessor == direct load of the expected file, loaded once then reused (I/O trace), RuntimeError naming the location, nothing cached after a failure, correct object one step after the fault is healed.",
+         "where the property is silent (direct + legacy both present, several legacy directories) either answer is accepted; URLs are out of scope (network seam guarded)", TECH + " (simulated directory tree, read faults, listdir-order adversary)", "6/C20"),
  "C18": ("fault_enumeration", "Seeded simulated runs build a metadata object by an API history, persist it to the simulated disk, mutate it, and then enumerate every validator invocation of one dump (one injected failure at a time) plus real invalid values at nested locators; after each failed dump the destination bytes are compared with the last good copy (or its absence); then the fault is removed and the dump must succeed.",
          "trusts SimFS to model truncate-on-open as POSIX does; dump to an already open handle is out of scope", TECH + " (validator-fault enumeration on a simulated disk)", "6/C18"),
 }
